@@ -227,7 +227,11 @@ def _bisect(hyp, case):
             hi = mid
         else:
             lo = mid
-    return {"session": "widcode", "cmds": [["enc", lo], ["digest", lo, hi], ["rt", lo, hi]]}
+    small = {"session": "widcode", "cmds": [["enc", lo], ["digest", lo, hi], ["rt", lo, hi]]}
+    _, outs = core.evaluate(_SELF(), hyp, small)
+    # a failure that needs several ids together (e.g. a mix of short and long codes) does not survive
+    # the bisection: report the range itself then
+    return small if core.bad_outcomes(outs) else case
 
 LEVEL_TEXT = ("Lean 4 theorems over all id lists with ids < 2^28 (round trip, concatenation, code shape, "
               "injectivity, boundary-aligned occurrence <-> contiguous sub-list, raw hits start on a boundary, "
